@@ -1,5 +1,5 @@
 (* C16 — tracker tier failover (tier half).  Property theorems only. *)
-From RainV Require Import Lib Tier TierProofs.
+From RainV Require Import Lib Tier TierProofs Wire Tracker TrackerProofs Announcer AnnouncerProofs.
 
 (* For every tier size and every success/failure pattern, each announce goes to the member
    the two-line spec names: same member after success, successor mod n after failure. *)
@@ -35,3 +35,33 @@ Theorem C16_tier_cycles_refuted_on_pinned_code :
   exists n s pat, 0 < n /\ 0 <= s < n /\ run_seq false n s pat <> spec_run n s pat.
 Proof. exact tier_cycles_refuted_pinned. Qed.
 Print Assumptions C16_tier_cycles_refuted_on_pinned_code.
+
+(* every announce that ends without a reply -- tracker error, any other error, or an abort
+   caused by another torrent sharing the tracker connection -- is followed by another announce *)
+Theorem C16_always_retried : forall bo a r ps, exists a' et, step true bo a r ps = (a', Some et).
+Proof. exact never_stuck. Qed.
+Print Assumptions C16_always_retried.
+
+Theorem C16_script_never_stuck : forall bo script a, ~ In None (run_script true bo a script).
+Proof. exact script_never_stuck. Qed.
+Print Assumptions C16_script_never_stuck.
+
+Theorem C16_always_retried_refuted_on_pinned_code : forall bo,
+  exists a, status a = Contacting /\ snd (step false bo a RCanceled []) = None.
+Proof. exact never_stuck_refuted_pinned. Qed.
+Print Assumptions C16_always_retried_refuted_on_pinned_code.
+
+(* any UDP reply bytes give an error or well-formed IPv4 peers, and only for action "announce" *)
+Theorem C16_udp_reply_total : forall d, bytes d ->
+  match parse_udp_announce d with
+  | None => True
+  | Some (_, _, _, ps) => Forall (fun p => 0 <= fst p < two32 /\ 0 <= snd p < 65536) ps /\
+                          rd_be32 (nth 0 d 0) (nth 1 d 0) (nth 2 d 0) (nth 3 d 0) = 1
+  end.
+Proof. exact udp_reply_total. Qed.
+Print Assumptions C16_udp_reply_total.
+
+Theorem C16_compact_reply_total : forall s ps, bytes s -> decode_compact s = Some ps ->
+  Forall (fun p => 0 <= fst p < two32 /\ 0 <= snd p < 65536) ps.
+Proof. exact compact_reply_total. Qed.
+Print Assumptions C16_compact_reply_total.
